@@ -102,3 +102,29 @@ Proof. exact hash_ten_rdfi. Qed.
 Theorem C03_hash_negative_summand :
   validate_batch T neg_batch = ROk /\ gen_hash (bt_entries neg_batch) = -1234567.
 Proof. exact hash_negative_summand. Qed.
+
+(* END TO END, phase 8: the file control of a file that was READ and validated, in terms
+   of the ENTRIES of every batch of every kind (composition of C03_read_validate,
+   C03_file_arith / C03_file_arith_adv and C03_batch_arith_general; no side condition):
+     entry/addenda count = Σ_batches Σ_entries (1 + addenda)
+     debit / credit      = Σ_batches of the batch's own-family totals by direction
+     entry hash          = (Σ_batches ((Σ atoi (aba8 RDFI)) rem 10^10)) rem 10^10        *)
+Theorem C03_read_validate_entries : forall f, read_validate T f = ROk -> is_adv_file f = false ->
+  fc_count (fl_ctl f) = sumz (fun b => spec_count (bt_entries b)) (all_batches f) /\
+  fc_debit (fl_ctl f) = sumz (fun b => gen_debit (bt_kind b) (bt_entries b)) (all_batches f) /\
+  fc_credit (fl_ctl f) = sumz (fun b => gen_credit (bt_kind b) (bt_entries b)) (all_batches f) /\
+  fc_hash (fl_ctl f) = Z.rem (sumz (fun b => gen_hash (bt_entries b)) (all_batches f)) (10 ^ 10).
+Proof. exact c03_read_validate_entries. Qed.
+Print Assumptions C03_read_validate_entries.
+
+Theorem C03_read_validate_entries_adv : forall f, read_validate T f = ROk -> is_adv_file f = true ->
+  fc_count (fl_ctl f) = sumz (fun b => spec_count (bt_entries b)) (fl_batches f) /\
+  fc_debit (fl_ctl f) = sumz (fun b => gen_debit (bt_kind b) (bt_entries b)) (fl_batches f) /\
+  fc_credit (fl_ctl f) = sumz (fun b => gen_credit (bt_kind b) (bt_entries b)) (fl_batches f) /\
+  fc_hash (fl_ctl f) = Z.rem (sumz (fun b => gen_hash (bt_entries b)) (fl_batches f)) (10 ^ 10).
+Proof. exact c03_read_validate_entries_adv. Qed.
+Print Assumptions C03_read_validate_entries_adv.
+
+Theorem C03_read_validate_entries_example :
+  read_validate T ex_file = ROk /\ is_adv_file ex_file = false /\ all_batches ex_file <> [].
+Proof. exact read_validate_entries_example. Qed.
